@@ -45,7 +45,7 @@ LEVEL_TEXT = (
     "other prefixes (foreign_annotation_untouched, other_prefix_untouched), clear of the annotations storage, name stability "
     "(names_depend_on_kind_and_owners, names_stable). GUARDED (_partial; full statement in a comment; each guard has a witness that is an "
     "OPEN finding replayed from the corpus): valid names — valid_name_v2_partial/_v1_partial/valid_names_partial under EdgeOk, which "
-    "valid_name_v2_exact proves to be exactly F6, and under IdOk (lambda_id_witness = F6i); distinct names — distinct_partial/"
+    "valid_name_v2_exact proves to be exactly F6, and under IdOk (the property's alphabet plus ':' of kopf's lambda ids: lambda_id_regression = fixed F6i; charset_witness for characters outside it); distinct names — distinct_partial/"
     "_short_partial (F6b, F6d); 'never disturbs other handlers' at id level — isolation_ids_short_partial/_long_partial/_v1_hashed_partial "
     "within one length band (F6d incl. ids > 63 via the shared V1 name = safe_form_long_v1_witness, F6b, F6e = forged_witness/"
     "forged_v1_witness) and off the storages' own names (F6g = marker_witness, reserved_touch_witness, reserved_diffbase_witness; "
@@ -113,7 +113,8 @@ THEOREMS = [
     ("Kopf.Props.C16_Keys", "Kopf.C16.marker_witness"),
     ("Kopf.Props.C16_Keys", "Kopf.C16.reserved_touch_witness"),
     ("Kopf.Props.C16_Keys", "Kopf.C16.reserved_diffbase_witness"),
-    ("Kopf.Props.C16_Keys", "Kopf.C16.lambda_id_witness"),
+    ("Kopf.Props.C16_Keys", "Kopf.C16.lambda_id_regression"),
+    ("Kopf.Props.C16_Keys", "Kopf.C16.charset_witness"),
 ]
 RULE = ("scenario = storage configuration (Annotations/Status/Smart/Multi as TREES: nested and empty Multis, status-headed and annotation-headed, sent to the model as trees, prefix from default / "
         "my-op.example.com / short / long-ish / 54..189 chars, v1 on/off, verbose, custom touch key / fields) x handler id over "
@@ -139,7 +140,7 @@ ASSUMPTIONS = [
     "(CRDs without x-kubernetes-preserve-unknown-fields) would drop a status-stored record — environment assumption",
     "json.dumps/json.loads: the theorems use only the instance loads(dumps(x)) = x at the value written; no injective codec is "
     "constructed in Lean (CPython's json is exercised by the tie)",
-    "ids outside [A-Za-z0-9_./<>-] (kopf's own lambda ids) are generated and judged (F6i) although outside the property's quantifier",
+    "kopf's own lambda ids (':' — outside the property's alphabet) are generated and judged (fixed F6i); other characters outside the alphabet are not generated (charset_witness is Lean-only)",
     "id-level isolation is proved within one length band only (both ids their own V1 names / both V1-hashed / both V2-hashed); "
     "across bands an id can spell the hashed name of another (F6e); the oracle checks isolation on every scenario",
     "the body given to an operation is the object the patch lands on (no stale view: a purge decided on a stale body without the "
@@ -157,7 +158,7 @@ ALPHABET = "ABCDEFGHIJKLMNOPQRSTUVWXYZabcdefghijklmnopqrstuvwxyz0123456789_./<>-
 ALNUM = "ABCDEFGHIJKLMNOPQRSTUVWXYZabcdefghijklmnopqrstuvwxyz0123456789"
 SPECIAL = "_./<>-"
 LOWER = "abcdefghijklmnopqrstuvwxyz"
-SAFE_TABLE = str.maketrans({"/": ".", "<": "_", ">": "_"})   # the oracle's own reading of "safe form"
+SAFE_TABLE = str.maketrans({"/": ".", "<": "_", ">": "_", ":": "_"})   # the oracle's own reading of "safe form"
 
 SIG_EDGE = {"site": "StorageKeyFormingConvention.make_v2_key", "shape": "name part starts or ends with a non-alphanumeric"}
 SIG_V1LONG = {"site": "StorageKeyFormingConvention.make_v1_key", "shape": "prefix of 55+ chars: v1 name part starts with '-' or exceeds 63"}
